@@ -93,12 +93,55 @@ def run(ctx):
                                "implementation_vs_model": {"impl_only": a_only[:10], "model_only": m_only[:10]}, "crashed": r["crashed"], "stderr_tail": r["stderr"][-500:],
                                "world": wid, "files": files, "config": [True, [], parsed],
                                "what": "the diagnostics under exclude-checks are not the filter of the unrestricted diagnostics"})
+    # (b) repeated runs on a concurrency stress module (40 independent packages, four checker families each): the
+    # module-wide exclusion must be applied by every checker of every package in every run
+    import stressgen, re as _re
+    sfiles, scodes = stressgen.ignore_stress(40, 20)
+    sroot = os.path.join(d, "stress", "m")
+    stressgen.write(sroot, sfiles)
+    stress_runs = 0
+    for i in range(16 if ctx.tier != "thorough" else 80):
+        val, want = [("ALL", 0), ("all", 0), ("IMM,CTOR", 80), ("tonl02, PKGO", 80)][i % 4]
+        env = {"GOGREEMENT_EXCLUDE_CHECKS": val} if i % 2 else {}
+        fl = [] if i % 2 else ["--config.exclude-checks=" + val]
+        r = lib.run_binary(ctx, sroot, flags=fl, env=env, timeout=600)
+        stress_runs += 1
+        if len(r["diags"]) != want or r["crashed"]:
+            found = True
+            rep.violation({"property": "C08", "kind": "stress", "value": val, "given_by": "environment" if i % 2 else "flag", "run": i, "diagnostics": len(r["diags"]), "expected": want,
+                           "leaked": [[x["file"], x["line"], x["code"]] for x in r["diags"]][:8], "crashed": r["crashed"], "stderr_tail": r["stderr"][-400:],
+                           "module": "checks/stressgen.ignore_stress(40, 20)", "files": {k: v for k, v in sfiles.items() if k in ("lib/lib.go", "s0/s.go")},
+                           "what": "under exclude-checks a matched diagnostic is reported (or an unmatched one lost) in some runs: the exclusion is not applied uniformly"})
+            break
+    # (c) go vet: facts of a dependency are cached by cmd/go per (files, tool, flags) - not per environment.  A sequence of
+    # runs on ONE build cache with different lists given by the environment: every run = the filter of the unrestricted run
+    vroot = os.path.join(d, "vet", "m")
+    vfiles = {"lib/lib.go": sfiles["lib/lib.go"], "app/app.go": "package app\n\nimport \"w/lib\"\n\nfunc Use(t *lib.T) {\n\tt.F = 1\n\t_ = lib.T{}\n\t_ = lib.Mock()\n\t_ = lib.Internal()\n}\n"}
+    stressgen.write(vroot, vfiles)
+    venv = dict(ctx.env)
+    venv["GOCACHE"] = os.path.join(d, "vet", "gocache")
+    venv["GOFLAGS"] = ctx.env.get("GOFLAGS", "-mod=mod")
+    vseq = []
+    for val in ["TONL", "imm01", "", "pkgo, Ctor01", "PKGO", "junk", "ALL", "IMM", ""]:
+        e = dict(venv)
+        e["GOGREEMENT_EXCLUDE_CHECKS"] = val
+        rc, out, err = lib.sh(["go", "vet", "-vettool=" + ctx.gg, "./app"], cwd=vroot, env=e, timeout=900)
+        got = sorted(set(_re.findall(r"\[([A-Z]+\d+)\]", err + out)))
+        parsed = [t.strip().upper() for t in val.split(",") if t.strip()]
+        want = sorted(c for c in ("IMM01", "CTOR01", "TONL02", "PKGO02") if not any(t in parsed for t in tokens_for(c)))
+        vseq.append({"GOGREEMENT_EXCLUDE_CHECKS": val, "codes": got})
+        if got != want or lib.crash_in(err + out):
+            found = True
+            rep.violation({"property": "C08", "kind": "vet-sequence", "sequence_so_far": vseq, "expected_codes_of_last_run": want, "stderr_tail": err[-600:], "files": vfiles,
+                           "what": "go vet -vettool on one build cache: after a run with one exclusion list, a run with another list does not give the filter of the unrestricted diagnostics "
+                                   "(what an earlier configuration left in the cached facts of a dependency leaks into later runs)"})
+            break
     lib.obligation_gate(rep, ctx, "C08", found)
     rep.cov["evaluations"] = len(jobs) * len(baseline)
     rep.cov["distinct_nontrivial"] = len(nontrivial)
     rep.cov["rule"] = ("%d worlds with every annotation present plus an @implements package (codes produced: %s); exclusion lists: every single token of {ALL, 5 categories, 16 codes, %d junk tokens "
                        "incl. strict prefixes of categories}, every pair of categories, %d random subsets, the empty list; spelled in random case / spacing / stray commas, alternately by flag and by "
-                       "environment; each run of the real binary compared with the filtered unrestricted run and with the model. evaluations = configurations x baseline diagnostics; non-trivial = "
+                       "environment; each run of the real binary compared with the filtered unrestricted run and with the model; plus 16 repeated runs on a concurrency stress module (40 packages x 4 checker families) under ALL / two-category lists, and a sequence of 9 go vet -vettool runs on one build cache with the list changing through the environment. evaluations = configurations x baseline diagnostics; non-trivial = "
                        "distinct parsed lists that remove some but not all diagnostics" % (nworlds, ",".join(codes_seen), len(JUNK), nrand))
     rep.cov["configurations"] = len(jobs)
     rep.cov["baseline_diagnostics"] = len(baseline)
@@ -109,7 +152,11 @@ def run(ctx):
 
 
 def replay(ctx, d):
-    import l1
+    import l1, json
+    if d.get("kind") in ("stress", "vet-sequence"):
+        print(json.dumps({k: v for k, v in d.items() if k != "files"}, indent=1)[:5000])
+        print("(schedule- or cache-dependent: re-run `checks/check.sh C08 quick`; the module is regenerated from checks/stressgen.py)")
+        return 0
     d = dict(d)
     d["kind"] = "world"
     return l1.replay(ctx, d)
